@@ -125,6 +125,12 @@ def run_plot(case: dict) -> dict:
         alloc = Allocation(build_alloc_tree(design, emb))
     shape = Shape(emb.length(dw), emb.length(dh))
     obs: dict = {}
+    if not case.get("tree"):
+        # Netlist may reorder the rectangles of a module (trunk first): the design is described in the order it is held
+        loaded = {m.name: [emb.back_rectangle(r) for r in m.rectangles] for m in netlist.modules}
+        obs["_design"] = {"mods": [[m[0], m[1], m[2], m[3], m[4], loaded[m[0]] if m[5] else []] for m in design["mods"]],
+                          "nets": design["nets"], "cells": design["cells"]}
+        assert all(sorted(a[5]) == sorted(b[5]) for a, b in zip(obs["_design"]["mods"], design["mods"]))
     s = dr.calculate_scaling(shape, w, h, f)
     obs["sc"] = {"width": int(s.width), "height": int(s.height), "frame": int(s.frame),
                  "xw": int(round(s.xscale * float(shape.w) * 1000)), "yh": int(round(s.yscale * float(shape.h) * 1000))}
@@ -343,9 +349,31 @@ def _features(c: dict, clause: str, obs: dict) -> dict:
         nm = "".join(c["name"])
         # the file name has no extension of its own but a directory part contains a dot (or starts the path with ./ ../)
         feat["dot_only_in_directory"] = int("." in os.path.dirname(nm) and "." not in os.path.basename(nm))
-    if clause == "bbox_tight":
-        # a module WITH rectangles whose area-equivalent disc reaches beyond every drawn shape
-        feat["disc_of_rect_module"] = int(any(m[5] for m in c["design"]["mods"]))
+    if c["kind"] == "main" and clause == "returns":
+        exc = obs.get("exc", "")
+        mods = c["design"]["mods"]
+        if exc.startswith("AssertionError: Incorrect total area") and mods and all(m[1] == "terminal" for m in mods):
+            feat["main_fault"] = "terminals_only_epsilon"      # Netlist of terminals only sets the global tolerance to inf
+        elif exc.strip() == "AssertionError:" and c["design"]["cells"]:
+            feat["main_fault"] = "alloc_box_exact_compare"     # assert alloc_die <= die_shape compares floats exactly
+        else:
+            feat["main_fault"] = "other"
+    if clause == "bbox_tight" and obs.get("bbox"):
+        # signature: the box is what one gets by adding, for the modules WITH rectangles, the disc of their area around
+        # their centroid (calculate_bbox does that for every module that has a centre)
+        xs, ys = [0.0], [0.0]
+        for m in c["design"]["mods"]:
+            if m[5]:
+                a = sum((t[2] - t[0]) * (t[3] - t[1]) for t in m[5])
+                cx = sum((t[2] - t[0]) * (t[3] - t[1]) * (t[0] + t[2]) / 2 for t in m[5]) / a
+                cy = sum((t[2] - t[0]) * (t[3] - t[1]) * (t[1] + t[3]) / 2 for t in m[5]) / a
+                r = math.sqrt(a / math.pi)
+                xs += [t[2] for t in m[5]] + [cx + r]
+                ys += [t[3] for t in m[5]] + [cy + r]
+            elif m[1] in ("circle", "terminal"):
+                xs.append(m[2] + m[4])
+                ys.append(m[3] + m[4])
+        feat["disc_of_rect_module"] = int(abs(max(xs) * 1000 - obs["bbox"][0]) <= 2 and abs(max(ys) * 1000 - obs["bbox"][1]) <= 2)
     return feat
 
 
@@ -423,7 +451,7 @@ def run(ctx: Ctx) -> int:
     plots = [g for g in gen if g["kind"] == "plot"]
     names = [g for g in gen if g["kind"] == "outname"]
     ctx.extra["cases_from_tlc"] = {"plot": len(plots), "outname": len(names)}
-    plots = rng.sample(plots, min(len(plots), 1500 if quick else 20000))
+    plots = rng.sample(plots, min(len(plots), 1000 if quick else 20000))
     cases = []
     for i, g in enumerate(plots):
         cases.append({"kind": "plot", "src": "tlc", "emb": ORIGIN0[i % len(ORIGIN0)], "die": g["die"], "req": g["req"], "loose": 0, "seed": i,
@@ -439,7 +467,7 @@ def run(ctx: Ctx) -> int:
         nm = main_names[i % len(main_names)]
         cases.append({"kind": "main", "src": "tlc", "emb": ORIGIN0[i % len(ORIGIN0)], "die": g["die"], "req": g["req"], "design": g["design"],
                       "name": nm, "outopt": list("out.gif") if i % 4 == 3 else []})
-    nrnd = 300 if quick else 4000
+    nrnd = 200 if quick else 4000
     cases += [random_plot(rng, ORIGIN0[i % len(ORIGIN0)]) for i in range(nrnd)]
     cases += netgen_cases(rng, 40 if quick else 400)
     ctx.extra["cases_run"] = {"tlc_plot": len(plots), "outname": len(names), "raw": 24, "main": sum(1 for c in cases if c["kind"] == "main"),
